@@ -8,7 +8,8 @@ from props import rt
 PID = "C03"
 LEVEL = "proof"
 MODULE = "Sigc.Props.C03"
-REQUIRED = ["Sigc.C03.safe", "Sigc.C03.safe_inside", "Sigc.C03.frame", "Sigc.C03.frame_spelled_out", "Sigc.C03.emit_restores_exec", "Sigc.C03.quiescent_clean", "Sigc.C03.inv_reachable"]
+EXTRA_MODULES = ("Sigc.Props.Refine",)   # the refinement P ⊑ S': what the specification says holds of the mechanism model
+REQUIRED = ["Sigc.C03.safe", "Sigc.C03.safe_inside", "Sigc.C03.frame", "Sigc.C03.frame_spelled_out", "Sigc.C03.emit_restores_exec", "Sigc.C03.quiescent_clean", "Sigc.C03.inv_reachable", "Sigc.Refine.refines"]
 TRUSTED = rt.TRUSTED_RT
 ASSUMPTIONS = rt.ASSUMPTIONS_RT + []
 PARTIAL = []
